@@ -220,6 +220,9 @@ pub fn case(ctx: &Ctx, shard: usize, index: u64, rep: &mut Report) {
     // ---- twins ----
     let mut a = Dec::new(sorenson, false);
     let mut b = Dec::new(sorenson, false);
+    // the twins' sources deliver their bytes differently (whole, or a few bytes per read call)
+    a.chunk = *rng.pick(&[usize::MAX, usize::MAX, 1, 3, 64]);
+    b.chunk = *rng.pick(&[usize::MAX, usize::MAX, 2, 7, 1000]);
     for p in &hist {
         let (oa, ob) = (a.decode(p), b.decode(p));
         if oa != Outcome::Ok || ob != Outcome::Ok {
